@@ -404,9 +404,10 @@ pub fn annot_en(rng: &mut Rng, lex: &Lexicon, unicode_ws: bool) -> String {
             0..=3 => if rng.chance(1, 8) { "O".to_string() } else { "o".to_string() },
             // a short fixed list (dense coverage of the common neighbours) or any word of the number vocabulary: plural
             // multipliers, ordinals, fractions, regional spellings
-            4..=6 => match rng.below(5) {
-                0 | 1 => rng.pick(&lex.number_words).clone(),
-                2 if !lex.ordinal_words.is_empty() => rng.pick(&lex.ordinal_words).clone(),
+            4..=6 => match rng.below(16) {
+                15 => lex.sep.to_string(),
+                0..=5 => rng.pick(&lex.number_words).clone(),
+                6..=8 if !lex.ordinal_words.is_empty() => rng.pick(&lex.ordinal_words).clone(),
                 _ => rng.pick_str(&NUMW).to_string(),
             },
             7 => rng.pick_str(&PUN).to_string(),
